@@ -112,6 +112,10 @@ structure DState where
   q : Q := {}
   prev : List Msg := []       -- implementation's previous snapshot (sorted by id)
   hist : Obs.Hist := {}       -- history monitor state (C03/C04 over the implementation's records)
+  /-- what the senders asked for: (id, next_run_at) of every message stored with a time in the future and not touched by
+      an operator since — a history-level reading of "not offered before its next_run_at", independent of what the store
+      wrote into its own `next` column -/
+  sched : List (String × Int) := []
   trace : Nat := 0
   stepNo : Nat := 0
   steps : Nat := 0
@@ -142,7 +146,7 @@ def processLine (ds : DState) (line : String) : DState × List String :=
     match str j "k" with
     | "cfg" =>
       let init := sortMsgs ((arr j "init").map msgOfJson)
-      ({ ds with cfg := cfgOfJson (obj j "cfg"), q := { msgs := init }, prev := init, hist := {},
+      ({ ds with cfg := cfgOfJson (obj j "cfg"), q := { msgs := init }, prev := init, hist := {}, sched := [],
                  trace := nat j "trace", stepNo := 0 }, [])
     | "step" =>
       let n := ds.stepNo
@@ -162,9 +166,29 @@ def processLine (ds : DState) (line : String) : DState × List String :=
         let items := (arr (obj j "resp") "items").map msgOfJson
         -- property predicates evaluated on the implementation's own record
         let rec_ : Obs.Rec := { cfg := ds.cfg, now := now, before := ds.prev, op := op, resp := resp, after := after, items := items }
-        let (hist', propMsgs) := Obs.checkAll ds.hist rec_
-        let propOut := propMsgs.map (fun m => s!"PROP {m} {tag}")
-        let ds := { ds with stepNo := n + 1, steps := ds.steps + 1, hist := hist', propFails := ds.propFails + propMsgs.length,
+        let (hist', propMsgs0) := Obs.checkAll ds.hist rec_
+        -- scheduled messages: remember what was asked for, forget on operator intervention, judge first leases
+        let asked : List (String × Int) := match op, resp with
+          | Op.enqueue e, Resp.ok => if e.next > now then [(e.id, e.next)] else []
+          | Op.enqueueBatch es, Resp.enqueued _ => es.filterMap (fun (e : Env) => if e.next > now then some (e.id, e.next) else none)
+          | _, _ => []
+        let sched1 : List (String × Int) := match op with
+          | Op.enqueue e => ds.sched.filter (·.1 != e.id)
+          | Op.enqueueBatch es => ds.sched.filter (fun p => !es.any (fun (e : Env) => e.id == p.1))
+          | Op.byIds _ ids => ds.sched.filter (fun p => !(ids.map trimWS).contains p.1)
+          | Op.byFilter .. => []
+          | _ => ds.sched
+        let early : List String := match resp with
+          | Resp.items ps => ps.filterMap fun (p : String × String) =>
+              match sched1.find? (fun (x : String × Int) => x.1 == p.1), after.find? (fun (m : Msg) => m.id == p.1) with
+              | some (_, want), some m => if m.attempt == 1 && now < want then some s!"scheduled-message-offered-before-its-time id={p.1} asked={want - now}ns-later" else none
+              | _, _ => none
+          | _ => []
+        let propMsgs := propMsgs0 ++ early.flatMap (fun _ => ["C03", "C05"])
+        let sched' := (sched1 ++ asked).filter (fun p => after.any (·.id == p.1))
+        let propOut := propMsgs0.map (fun m => s!"PROP {m} {tag}") ++
+          early.flatMap (fun e => [s!"PROP C03 {tag} {e}", s!"PROP C05 {tag} {e}"])
+        let ds := { ds with stepNo := n + 1, steps := ds.steps + 1, hist := hist', sched := sched', propFails := ds.propFails + propMsgs.length,
                             kinds := bump (opKind op ++ "/" ++ respKind resp) ds.kinds }
         match step ds.cfg now ds.q op ch with
         | none =>
